@@ -5,6 +5,7 @@ import (
 	"encoding/json"
 	"fmt"
 	"net"
+	"strings"
 	"sync"
 	"time"
 
@@ -177,6 +178,9 @@ func c13Virtual(c c13Case) (key, msg, outcome string) {
 		})
 	})
 	what := fmt.Sprintf("%s, %s from send %d (once=%v), deadline %d ms, expired-at-entry=%v", c.Call, c.Pattern, c.Step, c.Once, c.DeadMS, c.Expired)
+	if strings.HasPrefix(p, "RUNAWAY") {
+		return "C13/keeps-going-after-expiry/" + c.Call, what + ": " + p, ""
+	}
 	if p != "" {
 		return "C13/panic/" + siteKey(p), what + ": " + p, ""
 	}
@@ -361,21 +365,23 @@ func c13Real(c c13Case) (key, msg, outcome string) {
 		var start time.Time
 		var cancel context.CancelFunc
 		dl := time.Duration(c.DeadMS) * time.Millisecond
-		err, valid := c13Run(c.Call, conn, u.bmc.Cfg.Password, func() context.Context {
-			var ctx context.Context
-			if c.Expired {
-				ctx, cancel = context.WithDeadline(context.Background(), time.Now().Add(-time.Second))
-				dl = 0
-			} else {
-				ctx, cancel = context.WithTimeout(context.Background(), dl)
-			}
-			start = time.Now()
-			return ctx
-		}, func() {
-			u.mu.Lock()
-			u.started, u.c = true, c
-			u.mu.Unlock()
-		})
+		type result struct {
+			err   error
+			valid bool
+		}
+		done := make(chan result, 1)
+		go func() {
+			e, v := c13RunReal(c, conn, u, &start, &cancel, &dl)
+			done <- result{e, v}
+		}()
+		var valid bool
+		select {
+		case r := <-done:
+			err, valid = r.err, r.valid
+		case <-time.After(dl + 6*time.Second):
+			// the goroutine is abandoned (it cannot be interrupted); report
+			return "C13/real/does-not-return/" + c.Call + "/" + c.Pattern, what + ": the call had not returned 6 s after its deadline", ""
+		}
 		took := time.Since(start)
 		if cancel != nil {
 			cancel()
@@ -476,4 +482,24 @@ func runC13(r *rep.R) {
 	}
 	r.Assume("virtual time: a lost reply costs exactly the per-attempt timeout and a back-off sleep a fixed 250 ms quantum (the real jitter is nondeterministic); expiry is modelled as a deadline, not a cancellation")
 	r.Assume("real sockets: 250 ms scheduling allowance, an overrun is only reported if it repeats on 5 consecutive runs")
+}
+
+// c13RunReal performs the real-socket call (factored out so a watchdog can
+// abandon it if it never returns).
+func c13RunReal(c c13Case, conn *bmc.V2SessionlessTransport, u *udpBMC, start *time.Time, cancel *context.CancelFunc, dl *time.Duration) (error, bool) {
+	return c13Run(c.Call, conn, u.bmc.Cfg.Password, func() context.Context {
+		var ctx context.Context
+		if c.Expired {
+			ctx, *cancel = context.WithDeadline(context.Background(), time.Now().Add(-time.Second))
+			*dl = 0
+		} else {
+			ctx, *cancel = context.WithTimeout(context.Background(), *dl)
+		}
+		*start = time.Now()
+		return ctx
+	}, func() {
+		u.mu.Lock()
+		u.started, u.c = true, c
+		u.mu.Unlock()
+	})
 }
